@@ -138,6 +138,20 @@ def main(tier):
             if ms[0].group(2) != seeds[i] or ms[2].group(2) != seeds[i]:
                 run.violation("vm-modes:min/max-mode-consumed-randomness", rep)
         run.sample({"stream": "vm-modes", "case": progs[0][1]})
+        # both switches on (a host that turns min-mode on without turning max-mode off): still a mode evaluation — no randomness is
+        # consumed and the result is a bound; the model (`Config.mode`: min-mode first) says which
+        both = run.go_only("vm-modes-both", [f"runseq {cfgx}mM,L30000 {seeds[i]} {hx(src)}" for i, (cfgx, src) in enumerate(progs)], go_timeout=60)
+        for i, (cfgx, src) in enumerate(progs):
+            mb = re.match(r"ok i(-?\d+) .* seed=(\S+) \|", both[i][1])
+            m0 = re.match(r"ok i(-?\d+) ", out[3 * i][1])
+            rep = {"source": src, "cfg": cfgx + "mM", "seed": seeds[i], "both_modes": both[i][1][:200], "min_mode": out[3 * i][1][:200]}
+            if not mb or not m0:
+                continue
+            run.nontriv(("vm-both", src, seeds[i]))
+            if mb.group(2) != seeds[i]:
+                run.violation("vm-modes:min+max-mode-consumed-randomness", rep)
+            elif mb.group(1) != m0.group(1):
+                run.violation("vm-modes:min+max-mode-is-not-the-model's-min-mode", rep)
         # documented size limit: one directed probe
         out = run.go_only("vm-limit", [f"runseq {m},L30000 {r.getrandbits(128):032x} {hx('d9223372036854775807')}" for m in ("m", "-", "M")])
         ms = [re.match(r"ok i(-?\d+) ", x[1]) for x in out]
